@@ -886,6 +886,12 @@ def gen_linear(ctx, rng, out):
       out.append(lin_desc(b, eps, g, rng.choice(insts), delta, rng.randrange(2)))
     else:
       out.append(lin_desc(b, eps, g if g == "random" else "feasible", None, 0.0, rng.randrange(2)))
+  # small but not numerically-zero columns (norm between the 1e-8 escape and eps) violate the norm constraint by ~1
+  for order in (1, 2):
+    for e_, sc_ in ((1e-4, 2.0 ** -15), (1e-2, 2.0 ** -10), (1e-6, 2.0 ** -22)):
+      out.append(dict(layer="linear", n=2, units=2, monos=[1, 0], mdom=[], rdom=[], lo=[None, None], hi=[None, None],
+                      norm=order, K=[[0.5, sc_], [0.5, sc_]] if order == 1 else [[0.6, sc_], [-0.8, 0.0]], eps=e_,
+                      gclass="smallnorm", inj=dict(kind="norm", loc=[0], unit=1, delta=1.0), forms=0))
   # all-zero columns cannot be normalised and pass the norm check (documented special case)
   for order in (1, 2):
     out.append(dict(layer="linear", n=2, units=2, monos=[1, 0], mdom=[], rdom=[], lo=[None, None], hi=[None, None],
@@ -1228,14 +1234,20 @@ def eval_kfl(tf, tfl, d):
 # RTL
 # ----------------------------------------------------------------------------
 def gen_rtl(ctx, rng, out):
-  for _ in range(ctx.n(8, 120)):
+  for _ in range(ctx.n(20, 120)):
     rank = rng.choice([2, 2, 3])
     n_inc, n_unc = rng.randint(1, 3), rng.randint(0, 3)
+    # in 40% of the cases the violation is placed in a lattice group fed ONLY by unconstrained inputs (such a group has
+    # no monotonicity to assert but still has output bounds)
+    unc_group = rng.random() < 0.4
+    if unc_group:
+      n_unc = rank + rng.randint(1, 3)
     if n_inc + n_unc < rank:
       n_unc = rank - n_inc
     num_lattices = max(rng.randint(2, 4), -(-(n_inc + n_unc) // rank))   # every input must fit
-    out.append(dict(layer="rtl", rank=rank, size=rng.choice([2, 2, 3]), n_inc=n_inc, n_unc=n_unc,
-                    num_lattices=num_lattices, bmode=rng.choice(["none", "both", "min"]),
+    out.append(dict(layer="rtl", rank=rank, size=rng.choice([2, 2, 3]), n_inc=n_inc, n_unc=n_unc, unc_group=unc_group,
+                    num_lattices=num_lattices,
+                    bmode=rng.choice(["both", "min"]) if unc_group else rng.choice(["none", "both", "min"]),
                     kseed=rng.randrange(10 ** 6), eps=rng.choice(EPS),
                     gclass=rng.choice(["feasible", "inject", "inject", "inject", "below"]),
                     pick=[rng.random(), rng.random(), rng.random()], mult=rng.choice([10.0, 25.0, 100.0]),
@@ -1264,7 +1276,8 @@ def eval_rtl(tf, tfl, d):
     Ws.append(lat_feasible(rng, cfg, interior=False))
   inj = None
   if d["gclass"] in ("inject", "below"):
-    li = int(d["pick"][0] * len(subs))
+    cand = [i for i, c in enumerate(cfgs) if not any(c["monos"])] if d.get("unc_group") else []
+    li = cand[int(d["pick"][0] * len(cand))] if cand else int(d["pick"][0] * len(subs))
     ineqs = lat_ineqs(cfgs[li])
     if ineqs:
       qi = int(d["pick"][1] * len(ineqs))
